@@ -11,7 +11,7 @@ from __future__ import annotations
 
 import itertools
 
-from .. import core, families
+from .. import core, families, routes
 from ..models import search as S, mut as M
 from ..util import CLASSES, STREAMS, obs, vkind, mk, fmt_slice
 
@@ -108,39 +108,57 @@ def planes(L):
     return list(dict.fromkeys(''.join(str((i >> k) & 1) for i in range(L)) for k in range(nb)))
 
 
+VIEW_ROUTES = ('file_len', 'file_off3_len', 'bytes_off3', 'bytesio')
+
+
 def triples(bs, acc, L):
+    ctx = routes.Ctx()
+    try:
+        _triples(bs, acc, L, ctx)
+    finally:
+        ctx.close()
+
+
+def _triples(bs, acc, L, ctx):
     rng = [None] + list(range(-L - 2, L + 3))
     steps = [c for c in dict.fromkeys([None, 1, -1, 2, -2, 3, -3, L, -L, L + 1, -L - 1]) if c != 0]
     for ci, d in enumerate(planes(L)):
         cls = CLASSES[(L + ci) % 4]
-        s = getattr(bs, cls)(bin=d)
         rd = R(d)
-        acc.state((cls, d))
-        n = nt = 0
-        for i in range(-L - 2, L + 3):
-            exp = ('ok', rd[i] == '1') if -L <= i < L else ('exc', 'IndexError')
-            got = obs(lambda: s[i])
-            acc.step('index', 1, nontrivial=int(exp[0] == 'ok'), ok=int(exp[0] == 'ok'), rej=int(exp[0] != 'ok'))
-            if got != exp:
-                acc.violation('index', vkind(exp, got), dict(cls=cls, bits=d, i=i), snip([f"s = {mk(cls, d)}"], f"s[{i}]", exp), exp, got)
-        for c in steps:
-            for a in rng:
-                for b in rng:
-                    e = R(rd[a:b:c])
-                    try:
-                        r = s[a:b:c].bin
-                    except core.Hang:
-                        raise
-                    except Exception as ex:  # noqa: BLE001
-                        r = ('exc', type(ex).__name__)
-                    n += 1
-                    nt += bool(e)
-                    if r != e:
-                        acc.violation('slice', 'value' if isinstance(r, str) else 'exc', dict(cls=cls, bits=d, a=a, b=b, c=c, group='neg' if (c or 1) < 0 else 'pos'),
-                                      snip([f"s = {mk(cls, d)}"], f"s[{fmt_slice(a, b, c)}].bin", ('ok', e)), e, r)
-        acc.step('slice', n, nontrivial=nt, ok=n)
+        # the plain in-memory object, and the same content as a window onto a longer source (file, bytes, BytesIO)
+        objs = [([f"s = {mk(cls, d)}"], getattr(bs, cls)(bin=d), '')]
+        for r in VIEW_ROUTES:
+            o = routes.build(bs, r, cls, d, ctx)
+            if o is not None:
+                objs.append(([routes.SNIPPET_PRELUDE, f"s = {routes.source(r, cls, d)}"], o, r))
+        for pre, s, rname in objs:
+            acc.state((cls, d, rname))
+            n = nt = 0
+            for i in range(-L - 2, L + 3):
+                exp = ('ok', rd[i] == '1') if -L <= i < L else ('exc', 'IndexError')
+                got = obs(lambda: s[i])
+                acc.step('index', 1, nontrivial=int(exp[0] == 'ok'), ok=int(exp[0] == 'ok'), rej=int(exp[0] != 'ok'))
+                if got != exp:
+                    acc.violation('index', vkind(exp, got), dict(cls=cls, bits=d, i=i, route=rname, group=rname), snip(pre, f"s[{i}]", exp), exp, got)
+            for c in steps:
+                for a in rng:
+                    for b in rng:
+                        e = R(rd[a:b:c])
+                        try:
+                            r = s[a:b:c].bin
+                        except core.Hang:
+                            raise
+                        except Exception as ex:  # noqa: BLE001
+                            r = ('exc', type(ex).__name__)
+                        n += 1
+                        nt += bool(e)
+                        if r != e:
+                            acc.violation('slice', 'value' if isinstance(r, str) else 'exc',
+                                          dict(cls=cls, bits=d, a=a, b=b, c=c, route=rname, group=('neg' if (c or 1) < 0 else 'pos') + rname),
+                                          snip(pre, f"s[{fmt_slice(a, b, c)}].bin", ('ok', e)), e, r)
+            acc.step('slice', n, nontrivial=nt, ok=n)
         acc.outcome(('slice', L, d))
-    acc.sample(dict(L=L, event="s[a:b:c] for all a,b in {None} U [-L-2, L+2] and 11 steps under lsb0 vs R(R(bits)[a:b:c])"))
+    acc.sample(dict(L=L, event="s[a:b:c] for all a,b in {None} U [-L-2, L+2] and 11 steps under lsb0 vs R(R(bits)[a:b:c]), in-memory and window objects"))
 
 
 def P(L):
@@ -432,50 +450,66 @@ def streams(bs, acc):
     acc.sample(dict(event="BitStream(bin=d).read(2) then read(3) under lsb0 take bits [0,2) and [2,5) counted from the least significant end"))
 
 
+WHOLE_EXPRS = dict(tobytes="o.tobytes()", hash="hash(o)", eq="o == bitstring.Bits(bin=o.bin)", shl="(o << 1).bin", shr="(o >> 2).bin", inv="(~o).bin",
+                   **{'and': "(o & o).bin"}, add="(o + '0b1').bin", mul="(o * 2).bin", count="o.count(1)", str="str(o)",
+                   build="type(o)(uint=5, length=8).bin", tofile="TOFILE(o)", bytes_="bytes(o)", tobitarray="o.tobitarray().to01()",
+                   dictkey="{o: 1}.get(bitstring.Bits(bin=o.bin)) if type(o).__hash__ else None", copy="o.copy().bin", whole_slice="o[:].bin")
+WHOLE_PRE = """import os, io
+os.environ['BITSTRING_VERIF'] = '1'; os.environ['BITSTRING_VERIF_TOFILE_CHUNK_BITS'] = '16'
+import bitstring
+def TOFILE(o):
+    f = io.BytesIO(); o.tofile(f); return f.getvalue()
+def _c(v):
+    return ('nan' if v != v else v.hex()) if isinstance(v, float) else v
+"""
+
+
+def TOFILE(o):
+    import io
+    f = io.BytesIO()
+    o.tofile(f)
+    return f.getvalue()
+
+
 def whole(bs, acc):
-    """Whole-value interpretations, ==, hash, len, bin, tobytes are identical in both modes."""
+    """Whole-value interpretations, ==, hash, len, bin, tobytes, tofile (across its chunk boundary) are identical in both modes."""
+    import os
+    os.environ['BITSTRING_VERIF_TOFILE_CHUNK_BITS'] = '16'
+    try:
+        _whole(bs, acc)
+    finally:
+        os.environ.pop('BITSTRING_VERIF_TOFILE_CHUNK_BITS', None)
+
+
+def _whole(bs, acc):
+    from .. import bfs
     props = ['uint', 'int', 'hex', 'oct', 'bin', 'bytes', 'uintbe', 'uintle', 'intle', 'float', 'floatle', 'bfloat', 'bool', 'len', 'p4binary', 'e2m1mxfp']
-    for d in list(families.all_bits(8)) + ['1011001000000001', '0' * 31 + '1', '01' * 32]:
-        acc.state(('whole', d))
-        for cls in (CLASSES[len(d) % 4],):
+    exprs = {p: f"_c(o.{p})" for p in props}
+    exprs.update(WHOLE_EXPRS)
+    ns = dict(bitstring=bs, TOFILE=TOFILE, _c=_c)
+    longs = []
+    for L in (1999, 2000, 2001, 2500, 4003):
+        longs += families.edge(L, 0, full=False)[2:5]
+    for d in list(families.all_bits(8)) + ['1011001000000001', '0' * 31 + '1', '01' * 32, '110' * 13] + longs:
+        acc.state(('whole', d[:40], len(d)))
+        for cls in (CLASSES[len(d) % 4],) if len(d) < 100 else ('Bits', 'BitStream'):
             core.set_options(lsb0=False)
             o = getattr(bs, cls)(bin=d)
-            ref = {p: obs(lambda: _c(getattr(o, p))) for p in props}
-            ref['tobytes'] = obs(lambda: o.tobytes())
-            ref['hash'] = obs(lambda: hash(o))
-            ref['eq'] = obs(lambda: o == bs.Bits(bin=d))
-            ref['shl'] = obs(lambda: (o << 1).bin)
-            ref['shr'] = obs(lambda: (o >> 2).bin)
-            ref['inv'] = obs(lambda: (~o).bin)
-            ref['and'] = obs(lambda: (o & o).bin)
-            ref['add'] = obs(lambda: (o + '0b1').bin)
-            ref['mul'] = obs(lambda: (o * 2).bin)
-            ref['count'] = obs(lambda: o.count(1))
-            ref['str'] = obs(lambda: str(o))
-            ref['build'] = obs(lambda: getattr(bs, cls)(uint=5, length=8).bin)
+            ref = {k: bfs.run_src(dict(ns, o=o), e) for k, e in exprs.items()}
             core.set_options(lsb0=True)
             o2 = getattr(bs, cls)(bin=d)
-            got = {p: obs(lambda: _c(getattr(o2, p))) for p in props}
-            got['tobytes'] = obs(lambda: o2.tobytes())
-            got['hash'] = obs(lambda: hash(o2))
-            got['eq'] = obs(lambda: o2 == bs.Bits(bin=d))
-            got['shl'] = obs(lambda: (o2 << 1).bin)
-            got['shr'] = obs(lambda: (o2 >> 2).bin)
-            got['inv'] = obs(lambda: (~o2).bin)
-            got['and'] = obs(lambda: (o2 & o2).bin)
-            got['add'] = obs(lambda: (o2 + '0b1').bin)
-            got['mul'] = obs(lambda: (o2 * 2).bin)
-            got['count'] = obs(lambda: o2.count(1))
-            got['str'] = obs(lambda: str(o2))
-            got['build'] = obs(lambda: getattr(bs, cls)(uint=5, length=8).bin)
+            got = {k: bfs.run_src(dict(ns, o=o2), e) for k, e in exprs.items()}
+            got_old = {k: bfs.run_src(dict(ns, o=o), e) for k, e in exprs.items()}       # an object built before the switch
             for k in ref:
-                acc.step('whole', 1, nontrivial=int(ref[k][0] == 'ok'), ok=int(ref[k][0] == 'ok'), rej=int(ref[k][0] != 'ok'))
-                if got[k] != ref[k]:
-                    acc.violation('whole', 'value', dict(cls=cls, bits=d, what=k, group=k), '\n'.join(["import bitstring", f"a = {mk(cls, d)}", f"x = getattr(a, {k!r}, None) if {k!r} in {props!r} else None",
-                                                                                                         "bitstring.options.lsb0 = True", f"b = {mk(cls, d)}",
-                                                                                                         f"y = getattr(b, {k!r}, None) if {k!r} in {props!r} else None", "assert repr(x) == repr(y), (x, y)"]), ref[k], got[k])
-        acc.outcome(('whole', d[:8]))
-    acc.sample(dict(event="every whole-value property, ==, hash, len, bin, tobytes, shifts, ~, &, +, * equal in msb0 and lsb0"))
+                acc.step('whole', 2, nontrivial=2 * int(ref[k][0] == 'ok'), ok=2 * int(ref[k][0] == 'ok'), rej=2 * int(ref[k][0] != 'ok'))
+                if got[k] != ref[k] or got_old[k] != ref[k]:
+                    acc.violation('whole', 'value', dict(cls=cls, bits=d if len(d) < 70 else f'{len(d)} bits', what=k, group=k),
+                                  '\n'.join([WHOLE_PRE, f"o = {mk(cls, d)}", f"x = {exprs[k]}", "bitstring.options.lsb0 = True", f"y = {exprs[k]}", f"o = {mk(cls, d)}",
+                                             f"z = {exprs[k]}", "assert repr(x) == repr(y) == repr(z), (str(x)[:80], str(y)[:80], str(z)[:80])"]),
+                                  ref[k], got[k] if got[k] != ref[k] else got_old[k])
+        acc.outcome(('whole', d[:8], len(d)))
+    acc.sample(dict(event="every whole-value property, ==, hash, dict lookup, len, bin, tobytes, tofile (16-bit chunks), shifts, ~, &, +, * equal in msb0 and lsb0; "
+                          "lengths <= 8 and 1999..4003"))
 
 
 def _c(v):
